@@ -422,9 +422,16 @@ def fam_share(rng):
 
 
 def fam_selfop(rng):
-    """A op A: every edge coincident"""
+    """A op A: every edge coincident; half of the time every ring is written down in the opposite direction (clockwise
+    exteriors, counter-clockwise holes: a valid way of writing the operand), so that an operand handed back verbatim is
+    told apart from an assembled result"""
     f = rng.choice([fam_rect, fam_oct, fam_lat, fam_gp])
     a, _, meta = f(rng)
+    if rng.random() < 0.5:
+        kind, v = a
+        rev = lambda poly: [list(reversed(r)) for r in poly]  # noqa: E731
+        a = (kind, rev(v)) if kind == 'P' else (kind, [rev(poly) for poly in v])
+        meta = dict(meta, reversed_rings=True)
     return a, a, dict(meta, family='selfop')
 
 
@@ -1067,3 +1074,61 @@ def fam_tjunc_oct(rng):
 
 FAMILIES['tjo'] = fam_tjunc_oct
 EXACT_FAMILIES = EXACT_FAMILIES + ('tjo',)
+
+
+def _points_rep(r1, r2):
+    """every common point of an edge of r1 and an edge of r2 is exactly representable (and no two edges overlap)"""
+    from . import segs
+    for (a, b) in _segments_of(r1):
+        for (c, d) in _segments_of(r2):
+            cl = segs.classify(a, b, c, d)
+            if cl[0] == 'overlap':
+                return False
+            if cl[0] == 'point' and not (_rep32(cl[1][0]) and _rep32(cl[1][1])):
+                return False
+    return True
+
+
+def _vtj_once(rng):
+    W = rng.choice([2, 4, 8])
+    H = rng.choice([2, 4, 8])
+    y0 = rng.randrange(1, H) if H > 2 else 1
+    pw = [q for q in (4, 8, 16, 32) if q > H]
+    d1 = rng.choice(pw) - H
+    d2 = rng.choice(pw) - H
+    shape = rng.random()
+    if shape < 0.6:
+        ra = [(0, 0), (W, H // 2), (0, H)]
+    elif shape < 0.8:
+        ra = [(0, 0), (W, H // 2), (2 * W, H), (0, H)]              # upper edge horizontal: only the lower pair crosses
+    else:
+        ra = [(0, 0), (2 * W, 0), (W, H // 2), (0, H)]
+    rb = [(0, y0), (2 * W, y0 - d1), (2 * W, y0 + d2)]
+    pa, pb = [[ra]], [[rb]]
+    if rng.random() < 0.3:                                        # something else further right / left
+        pa.append([[(3 * W, 0), (4 * W, 0), (4 * W, H)]])
+    if rng.random() < 0.3:
+        pb.append([[(-3, 0), (-1, 0), (-1, H)]])
+    ox, oy = rng.randrange(-4, 5), rng.randrange(-4, 5)
+    f = rng.choice(_SYM8)
+    g = lambda poly: [[tuple(float(c) for c in f(x + ox, y + oy)) for (x, y) in r] for r in poly]  # noqa: E731
+    return [g(q) for q in pa], [g(q) for q in pb], {'family': 'vtj', 'W': W, 'H': H}
+
+
+def fam_vtj(rng):
+    """a vertex of one operand in the interior of a VERTICAL edge of the other, the two edges leaving that vertex fanning out
+    wider than the edges that leave the ends of the vertical edge, so that they cross them further on (the crossings are
+    found only when the halves of the split vertical edge leave the sweep line).  Only configurations all of whose crossing
+    points are representable (dyadic) are kept, so that every clause is exact."""
+    while True:
+        pa, pb, meta = _vtj_once(rng)
+        if all(_points_rep(r1, r2) for q1 in pa for r1 in q1 for q2 in pb for r2 in q2):
+            break
+    a, b = ('M', pa), ('M', pb)
+    if rng.random() < 0.5:
+        a, b = b, a
+    return a, b, meta
+
+
+FAMILIES['vtj'] = fam_vtj
+EXACT_FAMILIES = EXACT_FAMILIES + ('vtj',)
